@@ -61,6 +61,31 @@ def scaled(c, rng):
     return d
 
 
+def reordered(c, rng):
+    """the same call with axis lengths whose ORDER is reversed: the longest axis becomes the shortest and so on (non-unit axes get
+    pairwise different lengths), so that no comparison of two lengths comes out as before"""
+    d = clone(c)
+    names = sorted({l.name for t in d.ins + d.outs for l in gencalls.leaves(t) if not l.number and l.size != 1}, key=lambda n: (c.all_axes()[n], n))
+    if len(names) < 2:
+        return None
+    new_sizes = list(range(2, 2 + len(names)))[::-1]            # ranks reversed, all different
+    f = dict(zip(names, new_sizes))
+    for t in d.ins + d.outs:
+        for l in gencalls.leaves(t):
+            if l.name in f:
+                l.size = f[l.name]
+    d.arrays = []
+    for t, a in zip(d.ins, c.arrays):
+        sh = gencalls.shape_of(t)
+        if int(np.prod(sh)) > 200000:
+            return None
+        d.arrays.append(np.zeros(sh, dtype=np.asarray(a).dtype))
+    if c.family in ("get_at", "update_at", "argfind") or "shift" in d.extra_kwargs:
+        pass
+    d.desc = c.desc
+    return d
+
+
 def _work(item):
     c, variants = item
     out = []
@@ -100,7 +125,7 @@ def run(ctx):
     fam = {}
     for _ in range(n):
         c = gencalls.gen_call(ctx.rng)
-        vs = [v for v in (scaled(c, ctx.rng) for _ in range(k)) if v is not None]
+        vs = [v for v in [scaled(c, ctx.rng) for _ in range(k)] + [reordered(c, ctx.rng)] if v is not None]
         items.append((c, vs))
         fam[c.family] = fam.get(c.family, 0) + 1
         ctx.distinct.add(c.op + "|" + c.desc)
